@@ -11,7 +11,7 @@ import os, sys, subprocess, shutil, tempfile, json, re
 
 VERIF = os.path.dirname(os.path.dirname(os.path.abspath(__file__)))
 REPO = os.environ.get("SFS_REPO", "/repo")
-MUT = os.path.join(VERIF, "selftest", "mutants")
+MUT = os.path.join(VERIF, "selftest", os.environ.get("MUTEST_KIND", "mutants"))
 
 
 def scratch_copy():
@@ -59,13 +59,18 @@ def cmd_make(argv):
         diff = subprocess.run(["git", "diff"], cwd=repo, stdout=subprocess.PIPE, text=True).stdout
         rc, out = run_check(pid, repo, tmp)
         verdict, line = judge(pid, out, rc, expect)
+        if os.environ.get("MUTEST_KIND") == "equivalents":
+            # behaviour-preserving variant: the check must stay silent
+            silent = rc == 0 and "VIOLATION" not in out
+            verdict = "SILENT" if silent else "FALSE-ALARM"
+            line = out.strip().splitlines()[-1] if silent else "\n".join(l for l in out.splitlines() if "rule=" in l or l.startswith("    "))[:1500]
         print("%s %s/%s: %s" % (verdict, pid, name, line))
-        if verdict != "CAUGHT":
+        if verdict not in ("CAUGHT", "SILENT"):
             print(out[-2500:])
         os.makedirs(os.path.join(MUT, pid), exist_ok=True)
         open(os.path.join(MUT, pid, name + ".patch"), "w").write(diff)
         open(os.path.join(MUT, pid, name + ".expect"), "w").write(expect + "\n")
-        return 0 if verdict == "CAUGHT" else 1
+        return 0 if verdict in ("CAUGHT", "SILENT") else 1
     finally:
         shutil.rmtree(tmp, ignore_errors=True)
 
@@ -81,6 +86,9 @@ def run_one(pid, name):
             if r.returncode != 0:
                 return "SKIPPED", "patch does not apply to the current tree"
         rc, out = run_check(pid, repo, tmp)
+        if os.environ.get("MUTEST_KIND") == "equivalents":
+            silent = rc == 0 and "VIOLATION" not in out
+            return ("SILENT" if silent else "FALSE-ALARM"), (out.strip().splitlines()[-1] if silent else " | ".join(l.strip() for l in out.splitlines() if "rule=" in l)[:300])
         return judge(pid, out, rc, expect)
     finally:
         shutil.rmtree(tmp, ignore_errors=True)
@@ -100,7 +108,7 @@ def cmd_run(argv):
                 v, line = run_one(pid, name)
                 res.append((pid, name, v, line))
                 print("%-13s %s/%s  %s" % (v, pid, name, line[:160]))
-                if v in ("MISSED",):
+                if v in ("MISSED", "FALSE-ALARM"):
                     bad += 1
     return 1 if bad else 0, res
 
